@@ -235,10 +235,10 @@ def alphabet(level: int):
         ops.append(["resolve", apath, "resolve_target"])
         ops.append(["retarget", apath, "obj", ["a", "a"]])
         ops.append(["retarget", apath, "self", 0])
+        ops.append(["retarget", apath, "same-obj", 0])
         if level >= 1:
             ops.append(["resolve", apath, "target"])
             ops.append(["retarget", apath, "obj", ["a", "a", "a"]])
-            ops.append(["retarget", apath, "same-obj", 0])
             ops.append(["retarget", apath, "same-alias", 0])
     return ops
 
